@@ -30,14 +30,14 @@ Section C18.
   (** Same hash only if same call: kind, task/operator name, arguments (by hash), call-time options,
       exported options (as a set). *)
   Theorem C18_same_hash_same_call_fixed : forall e e' : expr, wf value e -> wf value e' ->
-    calc Fixed e = calc Fixed e' -> same_call value vhash e e'.
+    calc Fixed [] e = calc Fixed [] e' -> same_call value vhash e e'.
   Proof. exact (same_hash_same_call_fixed H H_inj value vhash pickle pickle_inj). Qed.
 
   Theorem C18_same_hash_same_call_shipped_partial : forall e e' : expr, wf value e -> wf value e' ->
-    calc AsShipped e = calc AsShipped e' -> same_call_weak value vhash e e'.
+    calc AsShipped [] e = calc AsShipped [] e' -> same_call_weak value vhash e e'.
   Proof. exact (same_hash_same_call_shipped H H_inj value vhash pickle pickle_inj). Qed.
   (* NOT PROVED for the shipped layout (it is false, see C18_scheduler_options_refuted):
-       forall e e', wf e -> wf e' -> calc AsShipped e = calc AsShipped e' -> same_call e e' *)
+       forall e e', wf e -> wf e' -> calc AsShipped [] e = calc AsShipped [] e' -> same_call e e' *)
 
   (** on the arguments themselves, given a collision-free value hash *)
   Theorem C18_same_positional_arguments : (forall v w, vhash v = vhash w -> v = w) ->
@@ -50,15 +50,23 @@ Section C18.
 
   (** the pending-expression table merges two expressions of one job only if they denote the same call *)
   Theorem C18_merge_only_same_call_fixed : forall j j' (e e' : expr), wf value e -> wf value e' ->
-    cache_ok H value vhash pickle Fixed e -> cache_ok H value vhash pickle Fixed e' ->
-    merge_key H vhash pickle Fixed j e = merge_key H vhash pickle Fixed j' e' ->
+    cache_ok H value vhash pickle Fixed [] e -> cache_ok H value vhash pickle Fixed [] e' ->
+    merge_key H vhash pickle Fixed [] j e = merge_key H vhash pickle Fixed [] j' e' ->
     j = j' /\ same_call value vhash e e'.
   Proof. exact (merge_only_same_call_fixed H H_inj value vhash pickle pickle_inj). Qed.
 
   (** as shipped a scheduler expression's hash is blind to its options and exported options *)
   Theorem C18_scheduler_options_invisible_shipped : forall (e : expr) o ex o' ex', e_kind e = KScheduler ->
-    calc AsShipped (with_options value e o ex) = calc AsShipped (with_options value e o' ex').
+    calc AsShipped [] (with_options value e o ex) = calc AsShipped [] (with_options value e o' ex').
   Proof. exact (scheduler_options_invisible H value vhash pickle). Qed.
+
+  (** SimpleExpression hashes its operator name verbatim; any replacement table makes an operator collide with
+      the name it is mapped to on the same operands (the shape "reflected operators share the forward
+      operator's hash"): *)
+  Theorem C18_simple_name_map_collides : forall ve nm r f (e : expr), e_kind e = KSimple ->
+    lookup_b r nm = Some f -> lookup_b f nm = None ->
+    calc ve nm (with_name value e r) = calc ve nm (with_name value e f).
+  Proof. exact (simple_name_map_collides H value vhash pickle). Qed.
 
   (** Pickling: hash, name, arguments, options, exported options survive; _hash, call_hash and
       _upstreams are reset. *)
@@ -74,14 +82,14 @@ Section C18.
   Hypothesis kwargs_rt : forall k, deser_kwargs (ser_kwargs k) = k.
   Hypothesis value_rt : forall v, deser_value (type_name v) (ser_value v) = v.
 
-  Theorem C18_pickle_roundtrip : forall ve (e : expr), class_wf value e ->
+  Theorem C18_pickle_roundtrip : forall ve nm (e : expr), class_wf value e ->
     exists e', roundtrip ser_args deser_args ser_kwargs deser_kwargs type_name ser_value deser_value e = Some e' /\
       e_kind e' = e_kind e /\ e_name e' = e_name e /\ e_args e' = e_args e /\ e_kwargs e' = e_kwargs e /\
       e_options e' = e_options e /\ e_export e' = e_export e /\ e_value e' = e_value e /\
       (match e_kind e with KTask | KScheduler => e_length e' = e_length e | _ => e_length e' = None end) /\
       cleared value e' /\
-      calc ve e' = calc ve e /\
-      get_hash H vhash pickle ve e' = calc ve e.
+      calc ve nm e' = calc ve nm e /\
+      get_hash H vhash pickle ve nm e' = calc ve nm e.
   Proof.
     exact (pickle_roundtrip H value vhash pickle sdata ser_args deser_args ser_kwargs deser_kwargs type_name
                             ser_value deser_value args_rt kwargs_rt value_rt).
@@ -105,10 +113,26 @@ Theorem C18_scheduler_options_refuted :
   let e1 := cond_expr [(b "cache_scope", b "NONE")] in
   let e2 := cond_expr [] in
   e_options e1 <> e_options e2 /\
-  expr_calc Hid Hid pflat AsShipped e1 = expr_calc Hid Hid pflat AsShipped e2 /\
-  merge_key Hid Hid pflat AsShipped 7 e1 = merge_key Hid Hid pflat AsShipped 7 e2 /\
-  bytes_eqb (expr_calc Hid Hid pflat Fixed e1) (expr_calc Hid Hid pflat Fixed e2) = false /\
-  expr_calc Hid Hid pflat Fixed e2 = expr_calc Hid Hid pflat AsShipped e2.
+  expr_calc Hid Hid pflat AsShipped [] e1 = expr_calc Hid Hid pflat AsShipped [] e2 /\
+  merge_key Hid Hid pflat AsShipped [] 7 e1 = merge_key Hid Hid pflat AsShipped [] 7 e2 /\
+  bytes_eqb (expr_calc Hid Hid pflat Fixed [] e1) (expr_calc Hid Hid pflat Fixed [] e2) = false /\
+  expr_calc Hid Hid pflat Fixed [] e2 = expr_calc Hid Hid pflat AsShipped [] e2.
+Proof. vm_compute. repeat split; try reflexivity. discriminate. Qed.
+
+(** x + "a" is add(x, "a"), "a" + x is radd(x, "a"): same operands, different operator. Hashed verbatim they
+    differ; with radd hashed as add they collide (and are merged by the pending-expression table). *)
+Definition op_expr (n : bytes) : expr bytes :=
+  {| e_kind := KSimple; e_name := n; e_args := [b "x"; b "'a'"]; e_kwargs := [];
+     e_options := []; e_export := []; e_value := None; e_length := None;
+     e_hash := None; e_call_hash := None; e_upstreams := UArgs |}.
+Definition reflected_map : list (bytes * bytes) :=
+  [(b "radd", b "add"); (b "rmul", b "mul"); (b "rand", b "and"); (b "ror", b "or")].
+
+Theorem C18_simple_name_map_refuted :
+  e_name (op_expr (b "add")) <> e_name (op_expr (b "radd")) /\
+  expr_calc Hid Hid pflat Fixed reflected_map (op_expr (b "add")) = expr_calc Hid Hid pflat Fixed reflected_map (op_expr (b "radd")) /\
+  merge_key Hid Hid pflat Fixed reflected_map 7 (op_expr (b "add")) = merge_key Hid Hid pflat Fixed reflected_map 7 (op_expr (b "radd")) /\
+  bytes_eqb (expr_calc Hid Hid pflat Fixed [] (op_expr (b "add"))) (expr_calc Hid Hid pflat Fixed [] (op_expr (b "radd"))) = false.
 Proof. vm_compute. repeat split; try reflexivity. discriminate. Qed.
 
 Example C18_nonvacuous :
@@ -121,7 +145,7 @@ Example C18_nonvacuous :
    (forall a, da (sa a) = a) /\ (forall v, dv (b "builtins.str") (sv v) = v) /\
    exists e', rt_bytes (fun _ => b "builtins.str") e = Some e' /\
               e_hash e' = None /\ e_call_hash e' = None /\ e_upstreams e' = UArgs /\ e_length e' = Some 2 /\
-              expr_calc Hid Hid pflat Fixed e' = expr_calc Hid Hid pflat Fixed e) /\
+              expr_calc Hid Hid pflat Fixed [] e' = expr_calc Hid Hid pflat Fixed [] e) /\
   (let v := {| e_kind := KValue; e_name := []; e_args := []; e_kwargs := []; e_options := []; e_export := [];
                e_value := Some (b "10"); e_length := None; e_hash := None; e_call_hash := None;
                e_upstreams := UEmpty |} in
@@ -139,4 +163,5 @@ Print Assumptions C18_same_hash_same_call_shipped_partial.
 Print Assumptions C18_merge_only_same_call_fixed.
 Print Assumptions C18_pickle_roundtrip.
 Print Assumptions C18_scheduler_options_refuted.
+Print Assumptions C18_simple_name_map_refuted.
 Print Assumptions C18_nonvacuous.
